@@ -115,7 +115,7 @@ def spec_files(sc, **params):
     _, extra = ast_files(sc, **params)
     path = sc.path('zz_verif_spec_params.go')
     with open(path, 'w') as f:
-        f.write('//go:build verif\n\npackage spec\n\nconst specK = %d\nconst specDirK = %d\nconst specWfK = %d\nconst specOrdK = %d\n' % (params.get('specK', 5), params.get('specDirK', 4), params.get('specWfK', 5), params.get('specOrdK', 4)))
+        f.write('//go:build verif\n\npackage spec\n\nconst specK = %d\nconst specDirK = %d\nconst specWfK = %d\nconst specOrdK = %d\nconst specOrdK2 = %d\n' % (params.get('specK', 5), params.get('specDirK', 4), params.get('specWfK', 5), params.get('specOrdK', 3), params.get('specOrdK2', 4)))
     sfs = [os.path.join(SPEC_HDIR, f) for f in sorted(os.listdir(SPEC_HDIR)) if f.startswith('zz_verif_') and f.endswith('.go') and not f.endswith('_test.go')]
     sfs.append(path)
     return sfs, extra
